@@ -45,6 +45,7 @@ from workflows.runtime.types.plugin import (
 from workflows.runtime.types.ticks import (
     TickIdleRelease,
     WorkflowTick,
+    WorkflowTickAdapter,
 )
 from workflows.workflow import Workflow
 
@@ -314,6 +315,12 @@ class DBOSIdleReleaseDecorator(BaseRuntimeDecorator):
         # has it queued before it starts processing.
         if pending_tick is not None:
             init_state = rebuild_state_from_ticks(init_state, [pending_tick])
+            # The tick is applied here, not by the control loop, so the loop's
+            # tick persistence never sees it. Record it, or the next resume
+            # replays a log that lacks the event this run was resumed with.
+            await self._store.append_tick(
+                run_id, WorkflowTickAdapter.dump_python(pending_tick, mode="json")
+            )
 
         # Carry over state from old run's state store
         serializer = JsonSerializer()
